@@ -468,6 +468,7 @@ inductive Op
   | burst (u : Ups) (i : Inst) (n : Str) (st : Option IState)
   | faults (names : List Str)
   | apiDelete (name : Str)
+  | wireRejected
   deriving DecidableEq, Repr
 
 def step (s : State) : Op → State × Out
@@ -484,6 +485,7 @@ def step (s : State) : Op → State × Out
   | .burst u i n st => (burst shardOf s u i n st, .unit)
   | .faults names => ({ s with failing := names }, .unit)
   | .apiDelete _ => (s, .unit)   -- out-of-band deletion in the API: the store's cache does not see it
+  | .wireRejected => (s, .err "wire")   -- a request the HTTP endpoint (or the client) refused before it reached the limiter
 
 def run (s : State) (ops : List Op) : State := ops.foldl (fun st op => (step shardOf st op).1) s
 
